@@ -71,6 +71,12 @@ class LamV(Val):
 
 
 @dataclass(frozen=True)
+class GenV(Val):
+    """A generator expression bound to a local name and not consumed yet (it is run when iterated / passed to next())."""
+    key: int                                    # id of the ast.GeneratorExp node (resolved through Interp.genexps)
+
+
+@dataclass(frozen=True)
 class BoundV(Val):
     recv: Val
     qual: str               # program function qualname
